@@ -60,6 +60,70 @@ func lowerBoundFact(cond, v string, k int) bool {
 	return false
 }
 
+// lengthLocal: v is a local whose only definition is a len(...) / cap(...) call.
+func lengthLocal(body *ast.BlockStmt, v string) bool {
+	if !token.IsIdentifier(v) {
+		return false
+	}
+	defs, isLen := 0, false
+	ast.Inspect(body, func(n ast.Node) bool {
+		switch x := n.(type) {
+		case *ast.AssignStmt:
+			for i, l := range x.Lhs {
+				if nospace(l) != v {
+					continue
+				}
+				defs++
+				if len(x.Rhs) == len(x.Lhs) && x.Tok == token.DEFINE {
+					if ce, ok := stripParens(x.Rhs[i]).(*ast.CallExpr); ok {
+						if fn := nospace(ce.Fun); fn == "len" || fn == "cap" {
+							isLen = true
+						}
+					}
+				}
+			}
+		case *ast.IncDecStmt:
+			if nospace(x.X) == v {
+				defs++
+			}
+		}
+		return true
+	})
+	return defs == 1 && isLen
+}
+
+// nonNegativeCounter: v is the key of an enclosing range loop or the counter of an enclosing loop that starts at a
+// literal >= 0 and only grows: for such a v the fact v != 0 says v >= 1.
+func nonNegativeCounter(path []ast.Node, node ast.Node, v string) bool {
+	for _, p := range path {
+		switch x := p.(type) {
+		case *ast.RangeStmt:
+			if x.Key != nil && nospace(x.Key) == v && x.Body.Pos() <= node.Pos() && node.End() <= x.Body.End() && !writtenBetween(x.Body, v, x.Body.Pos(), x.Body.End()) {
+				return true
+			}
+		case *ast.ForStmt:
+			as, ok := x.Init.(*ast.AssignStmt)
+			if !ok || len(as.Lhs) != 1 || len(as.Rhs) != 1 || nospace(as.Lhs[0]) != v {
+				continue
+			}
+			if c, err := strconv.Atoi(nospace(as.Rhs[0])); err != nil || c < 0 {
+				continue
+			}
+			up := false
+			switch post := x.Post.(type) {
+			case *ast.IncDecStmt:
+				up = post.Tok == token.INC && nospace(post.X) == v
+			case *ast.AssignStmt:
+				up = post.Tok == token.ADD_ASSIGN && len(post.Lhs) == 1 && nospace(post.Lhs[0]) == v
+			}
+			if up && !writtenBetween(x.Body, v, x.Body.Pos(), x.Body.End()) {
+				return true
+			}
+		}
+	}
+	return false
+}
+
 func balancedParens(s string) bool {
 	d := 0
 	for _, ch := range s {
@@ -138,6 +202,20 @@ func lowerBoundProved(body *ast.BlockStmt, node ast.Node, v string, k int) strin
 	})
 	inside := func(outer ast.Node) bool {
 		return outer != nil && outer.Pos() <= node.Pos() && node.End() <= outer.End()
+	}
+	counter := k == 1 && nonNegativeCounter(path, node, v)
+	lowerBoundFact := func(cond, v string, k int) bool {
+		if lowerBoundFact(cond, v, k) {
+			return true
+		}
+		if counter {
+			for _, cj := range splitTop(cond, "&&") {
+				if strings.TrimSpace(cj) == v+"!=0" {
+					return true
+				}
+			}
+		}
+		return false
 	}
 	for i := len(path) - 2; i >= 0; i-- {
 		switch p := path[i].(type) {
@@ -224,6 +302,9 @@ func subtractedSubscripts(body *ast.BlockStmt) []subFinding {
 		if _, err := strconv.Atoi(v); err == nil {
 			return
 		}
+		if lengthLocal(body, v) {
+			return // n := len(x) … x[n-1]: a length held in a local, same domain as above
+		}
 		out = append(out, subFinding{pos: e.Pos(), x: nospace(x), v: v, k: k, why: lowerBoundProved(body, e, v, k)})
 	}
 	ast.Inspect(body, func(n ast.Node) bool {
@@ -271,6 +352,16 @@ func fine(xs []int, i, col int) int {
 	case i >= 2:
 		s += xs[i-2]
 	}
+	n := len(xs)
+	if len(xs) > 0 {
+		s += xs[n-1]
+	}
+	for k := range xs {
+		if k == 0 {
+			continue
+		}
+		s += xs[k-1]
+	}
 	return s
 }`
 
@@ -295,7 +386,7 @@ func c13SubtractedSubscripts(c *Ctx, g *load.G) {
 			case "marker", "stale":
 				ctrl = ctrl && len(fs) == 1 && unproved == 1
 			case "fine":
-				ctrl = ctrl && len(fs) == 4 && unproved == 0
+				ctrl = ctrl && len(fs) == 5 && unproved == 0
 			}
 		}
 	}
